@@ -84,14 +84,27 @@ def build_harness():
 
 
 def regen_sources():
-    """Regenerate the Coq files derived from /repo's current source (gen/*.v)."""
+    """Regenerate the Coq files derived from /repo's current source (coq/gen/*.v)."""
     gdir = os.path.join(COQ, "gen")
     os.makedirs(gdir, exist_ok=True)
-    tool = os.path.join(BUILD, "harness")
     log = ""
-    if os.path.exists(tool):
-        rc, out = sh([tool, "-suite", "extract-consts", "-replay", gdir], env=GOENV, timeout=300)
+    tool = os.path.join(BUILD, "sharedscan")
+    rc, out = sh(["go", "build", "-o", tool, "."], cwd=os.path.join(VERIF, "lib", "sharedscan"), env=GOENV, timeout=600)
+    log += out
+    if rc == 0:
+        tmp = os.path.join(gdir, "SharedState.v.new")
+        rc, out = sh([tool, REPO, tmp], env=GOENV, timeout=300)
         log += out
+        if rc == 0:
+            dst = os.path.join(gdir, "SharedState.v")
+            try:
+                same = open(tmp).read() == open(dst).read()
+            except OSError:
+                same = False
+            if same:
+                os.remove(tmp)       # keep the timestamp: nothing to re-check
+            else:
+                os.replace(tmp, dst)
     _state["gen_log"] = log
     return log
 
@@ -188,6 +201,8 @@ def proof_status(pid, cfg, build_ok, log):
         res["obligations"] += len(names)
         vo = os.path.join(COQ, f[:-2] + ".vo")
         compiled = os.path.exists(vo) and os.path.getmtime(vo) >= os.path.getmtime(os.path.join(COQ, f))
+        if re.search(r'File "\./%s", line [^\n]*\n(?:[^\n]*\n)?Error' % re.escape(f), log):
+            compiled = False      # this build failed on the file (a stale .vo may still be lying around)
         bad = FORBIDDEN.search(strip_comments(src))
         if compiled and not bad:
             res["discharged"] += len(names)
